@@ -1,5 +1,6 @@
 SPECIFICATION TraceSpec
 INVARIANT TOutputsClean
+INVARIANT TOutputsCleanStrict
 INVARIANT TFailureStops
 INVARIANT TRefusalHidesNoFailure
 INVARIANT TStaleOnlyObsolete
